@@ -350,6 +350,14 @@ func recordAuthFailure(clientIP string, trackers map[string]*authFailureTracker,
 	defer mu.Unlock()
 
 	tracker := trackers[clientIP]
+	if tracker == nil {
+		// The entry can be gone by now: the caller looked it up and released
+		// the lock before validating the credential, and in between the
+		// cleanup ticker (or eviction at capacity) may have removed a tracker
+		// that had no recent failure. Start a new one instead of crashing.
+		tracker = &authFailureTracker{}
+		trackers[clientIP] = tracker
+	}
 	tracker.failures++
 	tracker.lastFailure = time.Now()
 
